@@ -237,6 +237,14 @@ impl TurbineSampler {
     // TODO: support more than 2 levels of Turbine?
     #[must_use]
     pub fn new_with_fanout(mut validators: Vec<ValidatorInfo>, turbine_fanout: usize) -> Self {
+        // with at most two validators there is no tree below the root to account for
+        if validators.len() <= 2 {
+            return Self {
+                fanout: turbine_fanout,
+                stake_weighted: StakeWeightedSampler::new(validators),
+            };
+        }
+
         let total_stake: Stake = validators.iter().map(|v| v.stake).sum();
 
         // calculate expected work for each validator (only excess over leader work)
